@@ -6,6 +6,55 @@ BASELINE = ("cd /repo && cargo nextest run --workspace --no-fail-fast --tool-con
             "--profile pb --test-threads 8 --offline")
 
 CLAIMED = {
+    'C12': dict(
+        technique='Lean 4 proof (containers reduced to the item list they hand to the trait default methods; permutation '
+                  'invariance; trace decomposition of reason_all_causes) + differential correspondence run over six holders',
+        text='Theorems c12_len_is_number_of_items, c12_items_of_containers (slice/Vec/VecDeque = the sequence, BTreeMap = ascending '
+             'keys, HashMap = a permutation), c12_answers_function_of_items / c12_same_items_same_answers (every answer of the four '
+             'reasoning traits is a function of the item list), c12_perm_invariant_{assumable,inferable,observable,causable} (counts, '
+             'percentages, "all" answers equal, filters equal as multisets under List.Perm), c12_verdict_independent_of_cells, '
+             'c12_reason_idempotent (any number of repetitions), c12_clone_same_verdict_partial (same shape => same verdict, for '
+             'collections of causaloids). Correspondence: the same item descriptions in [T], Vec, VecDeque (wrapped ring), BTreeMap, '
+             'HashMap and a rebuilt twin, every trait method on each, each dump computed twice; CausaloidGraph vs clone() vs rebuilt '
+             'twin compared on the real code.',
+        note='Partial: CausaloidGraph is not modelled in Lean for this property (graph/clone/twin equality is checked on the real '
+             'code only, acyclic graphs); nesting depth of collection causaloids is 1 in the model. Trusted: Lean kernel, '
+             'Model/Collections.lean + Model/Reasoning.lean (hand-written), f64 execution in the Lean runtime, HashMap order as '
+             'reported by get_all_items().',
+        ref='DESIGN.md §7 C12'),
+    'C18': dict(
+        technique='Lean 4 proof (list induction, exact rationals, verification histories by induction) + differential '
+                  'correspondence run comparing f64 bit patterns',
+        text='Theorems for arbitrary member predicates (the f64 comparisons enter as arbitrary functions): c18_assumable_counts, '
+             'c18_assumable_partition (valid/invalid and tested/untested partition the collection, List.Perm), '
+             'c18_percent_assumption_valid, c18_inferable_counts, c18_percent_inferable (x100), c18_not_both_inferable and '
+             'c18_non_inferable_family (the non-inferable filter is empty, its count/percentage and the collection conjoint delta are 0), '
+             'c18_number_observation (number_non = len - number = count of the complement), c18_percent_observation (scale 0..1), '
+             'c18_totalCmp_total_order (bit-pattern model of f64::total_cmp), c18_tested_from_first_verify_on, '
+             'c18_valid_only_after_true, c18_verify_returns_verdict, c18_collection_member_history (every member under every history of '
+             'verify_all / member verifications). Correspondence: real Vec collections with boundary values (equal to threshold, '
+             'adjacent floats, +-0.0, NaN, inf, subnormals, 4-decimal truncation edges); floats compared as bit patterns, the exact '
+             'rational percentages of the model are checked against the printed floats.',
+        note='Trusted: Lean kernel, Model/Reasoning.lean (hand-written), Lean runtime Float = IEEE binary64 for re-computing '
+             'percentages and member predicates (execution only), NaN canonicalised.',
+        ref='DESIGN.md §7 C18'),
+    'C03': dict(
+        technique='Lean 4 proof (refinement of a map specification by induction over the call history; characterisation of '
+                  'eval_single_state / eval_all_states for every environment and every hash-map iteration order) + differential '
+                  'correspondence run against the real CSM',
+        text='Theorems c03_run_refines_map / c03_history_is_map: for every history of new/add/remove/update/update_all/eval calls '
+             '(each evaluation with its own pattern of failing causal functions and failing actions) the model table denotes exactly '
+             'the map Nat -> Option (state, action) of the specification and every call returns the prescribed outcome and effect log; '
+             'c03_failed_call_unchanged, c03_add_existing_fails, c03_absent_fails: failures have no side effects; '
+             'c03_evalSingle_fires_iff: the causaloid is evaluated once on the supplied data, exactly [current action] fires iff the '
+             'verdict is Ok(true), errors surface; c03_evalAll_ok_fires_exactly / c03_evalAll_err_prefix for every permutation of the '
+             'registered ids; c03_len_counts_registered. The model (association list mirroring the HashMap calls and guard clauses of '
+             'csm_types/mod.rs) is executed against the real CSM on generated histories of 1-60 calls with forced id collisions and '
+             'fault patterns, plus an exhaustive small scope.',
+        note='Trusted: Lean kernel, the hand-written model Model/Csm.lean (tied to the code only by the correspondence run), the '
+             'harness fixtures (verdict decoded from the data value, global fault switch/mask, effect log), HashMap iteration order '
+             'taken from the observed log and validated as a duplicate-free enumeration of the registered ids.',
+        ref='DESIGN.md §7 C03'),
     'C04': dict(
         technique='Lean 4 proof: inductive invariant over all interleavings of a pc-machine model of the pipeline (one step per '
                   'sync-facade operation) + trace replay of real executions under a deterministic scheduler on the model and '
